@@ -188,5 +188,20 @@ func rtnlExecute(m rtnetlink.Message, family uint16, flags netlink.HeaderFlags) 
 	}
 	defer c.Close()
 
-	return c.Execute(m, family, flags)
+	msgs, err := c.Execute(m, family, flags)
+	if err != nil {
+		return nil, err
+	}
+
+	for _, m := range msgs {
+		// The kernel omits the destination attribute of a default route, such
+		// as "unreachable default" which is anchored on loopback. Make it
+		// explicit so it is treated like any other loopback route.
+		rm, ok := m.(*rtnetlink.RouteMessage)
+		if ok && rm.Family == unix.AF_INET6 && rm.DstLength == 0 && len(rm.Attributes.Dst) == 0 {
+			rm.Attributes.Dst = net.IPv6zero
+		}
+	}
+
+	return msgs, nil
 }
